@@ -126,7 +126,36 @@ def body_binary(S, spec):
                 S.structural.append((v.name, v.detail))
 
 
-BODIES = {"body_unary": body_unary, "body_binary": body_binary}
+def body_solve(S, spec):
+    """solve on lazy operands == solve on their synchronised twins (LAPACK contract stub, memoised by content: on the unchanged code the
+    backend receives identical blocks in all four combinations, so the solutions are the same terms)"""
+    from vlib import stubs
+    stubs.install()
+    a, b = build(S, spec["a"]), build(S, spec["b"])
+    a2, b2 = synced_twin(S, spec["a"]), synced_twin(S, spec["b"])
+    if S.mode == "sym":
+        import numpy as _np
+        for s_, B in a2.blocks.items():
+            B = _np.asarray(B, dtype=object)
+            det = B[0, 0] if B.shape == (1, 1) else B[0, 0] * B[1, 1] - B[0, 1] * B[1, 0]
+            zt.ctl().assume(zt.parts(det)[0] != 0, "input: blocks of A are invertible (solve)")
+    k0, r0 = call(lambda: sr.linalg.solve(a2, b2))
+    for tag, (p, q) in (("lazy-lazy", (a, b)), ("lazy-synced", (a, b2)), ("synced-lazy", (a2, b))):
+        k1, r1 = call(lambda: sr.linalg.solve(p, q))
+        nm = f"solve[{tag}]"
+        if k1 != k0:
+            S.structural.append((nm + ":raises-differ", f"{k1} {str(r1)[:80]} | synced-synced: {k0} {str(r0)[:80]}"))
+            continue
+        if k1 == "raise":
+            S.note("raised:solve")
+            continue
+        try:
+            same_result(S, nm, r1, r0)
+        except Violation as v:
+            S.structural.append((v.name, v.detail))
+
+
+BODIES = {"body_unary": body_unary, "body_binary": body_binary, "body_solve": body_solve}
 
 
 def _run(case):
@@ -182,6 +211,30 @@ def build_family(tier, seed):
                         bc.append(dict(a=A, b=B, ops=tuple(ops.gen_same_shape_binary())))
         bc, _ = fam.thin(bc, 4000 if not thorough else 40000, seed + 1)
         groups[f"binary/{nm}"] = ([dict(body="body_binary", spec=c, sample=(i % 2500 == 0), seed=seed + i) for i, c in enumerate(bc)], False)
+        # solve with pending signs on the matrix and / or the right-hand side, every total charge of the matrix (even and odd, zero and non-zero)
+        uni = fam.UNIVERSE[sym]
+        sv = []
+        for cmv in [((uni[0], 1), (uni[1], 1)), ((uni[0], 2), (uni[1], 2)), ((uni[1], 2),)]:
+            for d0, d1 in itertools.product((False, True), repeat=2):
+                ixs = ((cmv, d0), (cmv, d1))
+                for qa in fam.possible_charges(sym, ixs):
+                    secs = [s_ for s_ in fam.sectors_of(sym, ixs, qa)]
+                    if not secs:
+                        continue
+                    bix = ((cmv, d0),)
+                    rows = {s_[0] for s_ in secs}
+                    for qb in fam.possible_charges(sym, bix):
+                        bs = [s_ for s_ in fam.sectors_of(sym, bix, qb) if s_[0] in rows]
+                        if not bs:
+                            continue
+                        for pa_, pb_ in ((secs[:1], bs[:1]), ((), bs[:1]), (secs[-1:], ())):
+                            A = dict(sym=sym, generic=generic, fermionic=True, indices=ixs, charge=qa, present=tuple(secs), phases=tuple(pa_),
+                                     oddpos=(1 if gs.parity(sym, qa) else None), name="a")
+                            B = dict(sym=sym, generic=generic, fermionic=True, indices=bix, charge=qb, present=tuple(bs), phases=tuple(pb_),
+                                     oddpos=(2 if gs.parity(sym, qb) else None), name="b")
+                            sv.append(dict(a=A, b=B))
+        sv, _ = fam.thin(sv, 200 if not thorough else 2000, seed + 4)
+        groups[f"solve/{nm}"] = ([dict(body="body_solve", spec=c, seed=seed + i) for i, c in enumerate(sv)], False)
     return groups
 
 
